@@ -68,6 +68,11 @@ na = {
  "C19": "Not applicable to solver-based checking of the real code: every clause depends on code that cannot be encoded within reach -- encoding/gob (reflection-driven, self-describing streams), SHA-256 (\"the hash changes whenever a field changes\" is collision resistance, not an SMT question), ECDSA P-256 and decoder robustness on arbitrary bytes. Replacing gob/SHA/ECDSA by injective uninterpreted functions would decide facts about the stubs, not about the code; the one decidable fragment (pairwise Merkle tree over an injective hash for <= 8 leaves) is too small to claim the property on. See DESIGN.md §10 (including defects observed while reading that a run-the-code technique should confirm).",
 }
 
+# thorough commands are registered only where the thorough plan ran clean on the unchanged tree
+# in this sandbox (DESIGN.md section 13); the other thorough plans exist (`./check.sh <id> thorough`)
+# but were not run to completion before registration, so they are not part of the interface.
+THOROUGH_VERIFIED = {"C03", "C05", "C06", "C10", "C13", "C16", "C17", "C18"}
+
 checks = []
 for pid in props:
     if pid in claimed:
@@ -75,7 +80,7 @@ for pid in props:
         checks.append({
             "property_id": pid,
             "quick_cmd": f"./check.sh {pid} quick",
-            "thorough_cmd": f"./check.sh {pid} thorough",
+            **({"thorough_cmd": f"./check.sh {pid} thorough"} if pid in THOROUGH_VERIFIED else {}),
             "evidence_file": f"/verif/evidence/{pid}.json",
             "replay_cmd_template": "bin/gosx replay {path}" if c.get("engine", "gosx") == "gosx" else "cat {path}",
             "engine": c.get("engine", "gosx"),
